@@ -196,7 +196,7 @@ def _rows_after_solve(T, n, reduce, extra):
 
 def _table_reads_plain(T, ops):
     # the table of a Model's solver after a history of reads through Model.GetTimeSeries (series x / d / k, time zero suppressed or not, no cut-off /
-    # cut-off argument / cut-off attribute): still T+1 data rows under the same header, every cell as straight after the solve
+    # cut-off argument; the cut-off attribute kind needs o >= 12 and is outside the quick bound): still T+1 data rows under the same header, every cell as straight after the solve
     from sfc_models.models import Model
     ES.SYM_G = [float(i) for i in range(T + 1)]
     mod = Model()
@@ -220,24 +220,21 @@ def _table_reads_plain(T, ops):
     return True
 
 
-def reach_table_after_model_reads(T: int, ops: List[int]) -> bool:
+def reach_table_after_model_reads(o1: int, o2: int, two: bool) -> bool:
     """
-    pre: 1 <= T <= 2
-    pre: 1 <= len(ops) <= 2
-    pre: all(0 <= o <= 11 for o in ops)
-    post: not (_ and T == 2 and len(ops) == 2)
+    pre: 0 <= o1 <= 11 and 0 <= o2 <= 11
+    post: not (_ and two and o1 == 11)
     """
-    return _table_reads_plain(T, ops)
+    return _table_reads_plain(2, [o1, o2] if two else [o1])
 
 
-def check_table_after_model_reads(T: int, ops: List[int]) -> bool:
+def check_table_after_model_reads(o1: int, o2: int, two: bool) -> bool:
     """
-    pre: 1 <= T <= 2
-    pre: 1 <= len(ops) <= 2
-    pre: all(0 <= o <= 11 for o in ops)
+    pre: 0 <= o1 <= 11 and 0 <= o2 <= 11
     post: _
     """
-    return _table_reads_plain(T, ops)
+    # horizon 2 (the symbolic horizon is the subject of check_rows_after_solve); one or two reads, each of 12 kinds
+    return _table_reads_plain(2, [o1, o2] if two else [o1])
 
 
 def reach_rows_after_solve(T: int, n: int) -> bool:
